@@ -37,6 +37,15 @@ TRUSTED["C10"] = [
     "contracts of gen.HC_* / gen.applymask (proved under C09) at run()'s call sites",
 ]
 
+TRUSTED["C12"] = [
+    "lazy-sum calculus (pyvc/npmodel.make_sum, pyvc/lemmas): np.dot of lambda arrays is a sum constant keyed by its summand; "
+    "sum congruence (equal extents and point-wise equal summands) and factoring of summation-independent multipliers",
+    "numpy.linalg.qr(mode='r') as an uninterpreted function of its argument (matrix-term level); matrix extensionality lemma "
+    "(cell-wise equal arrays denote the same matrix), checked at a skolem cell before use",
+    "projection/Gram identity of the LQ factor (DESIGN A5.x): H H^T = (Yf Yp^T)(Yp Yp^T)^-1 (Yp Yf^T) whenever H is the block of "
+    "R^T below/left of the split between the past-reference rows and the future rows, past stacked first - the contract pins exactly that",
+]
+
 ASSUMPTIONS = {
     "C09": [
         "a mode-shape vector in a pole table is either entirely non-finite or entirely finite",
@@ -46,7 +55,11 @@ ASSUMPTIONS = {
 
 ASSUMPTIONS["C10"] = ["scope of the order window clause: step == 1 (columns are model orders), as in the property's quantifier"]
 
+ASSUMPTIONS["C12"] = ["N = Ndat - 2*br - 1 >= 2; for 'dat' additionally N - 1 >= (r + l)(br + 1) (thin QR factor square)"]
+
 NOT_DECIDED = {
+    "C12": ["the Gram/projection identity itself for the data-driven matrix is a trusted linear-algebra lemma; the proof pins the "
+            "stacking order, scaling, windows and split point it depends on"],
     "C10": ["MAC value itself (C18)", "label purity is a consequence of the functional contract (result == spec(arguments)); "
                                       "absence of writes to the argument tables is checked by the replay only"],
     "C09": ["the numerical values of MPC/MPD themselves (C18)"],
